@@ -355,10 +355,13 @@ impl Card {
         let needs_crc = self.crc_on || idx == 0 || idx == 8;
         let mut misb = "none".to_string();
         let key = if was_app { format!("acmd{}", idx) } else { format!("cmd{}", idx) };
-        if let Some((w, _a)) = self.misb_hit(&key) {
+        let mut marg: i64 = 0;
+        if let Some((w, a)) = self.misb_hit(&key) {
             misb = w;
-        } else if let Some((w, _a)) = self.misb_hit("cmd") {
+            marg = a;
+        } else if let Some((w, a)) = self.misb_hit("cmd") {
             misb = w;
+            marg = a;
         }
         if misb == "spi" {
             self.spi_error_at = Some(self.total_bytes + 1);
@@ -469,9 +472,9 @@ impl Card {
                     r1 = 0;
                     let mut st2 = 0u8;
                     if misb == "status" {
-                        st2 = 0x04;
+                        st2 = if marg > 0 && marg < 256 { marg as u8 } else { 0x04 };
                     } else if misb == "status1" {
-                        r1 = 0x40;
+                        r1 = if marg > 0 && marg < 256 { marg as u8 } else { 0x40 };
                     }
                     extra = vec![st2];
                 }
